@@ -48,7 +48,7 @@ func init() {
 		stats := fs.String("stats", "-", "stats")
 		rounds := fs.Int("rounds", 3, "proxy instances")
 		nops := fs.Int("ops", 40, "operations per round")
-		burst := fs.Int("burst", 150, "schema events emitted back to back at the end of every round")
+		burst := fs.Int("burst", 500, "schema events emitted back to back at the end of every round")
 		_ = fs.Parse(args)
 		type stT struct{ Rounds, Emits, Schema, Registers, Closes, Failovers, Events int }
 		st := &stT{}
@@ -179,13 +179,16 @@ func init() {
 			settle()
 			// burst: many schema changes back to back (a DROP KEYSPACE with many tables); each must still reach every
 			// registered client exactly once
+			// (one write: the proxy's reader finds the frames back to back, faster than the cluster loop fans them out)
+			var bids []string
+			var bmsgs []message.Message
 			for b := 0; b < *burst; b++ {
 				nev++
-				if e.C.EmitEvent(fmt.Sprintf("e%d", nev), "schema", schemaEvent(rnd, nev)) > 0 {
-					st.Emits++
-				}
+				bids = append(bids, fmt.Sprintf("e%d", nev))
+				bmsgs = append(bmsgs, schemaEvent(rnd, nev))
 				st.Schema++
 			}
+			st.Emits += e.C.EmitEventBurst(bids, "schema", bmsgs)
 			settle()
 			t.Stop()
 			evs := t.Events()
